@@ -13,7 +13,7 @@ LINE_FUNCS = ["_local_receive", "_local_close", "close", "waitclose", "receive",
 
 def run(ctx):
     rng = random.Random(ctx.seed + 7)
-    mc = gwmodel.check(ctx, ["GW_err"] if ctx.quick else ["GW_err", "GW_cb_recv", "GW_data_big", "GW_all_big"], mutants=[])
+    mc = gwmodel.check(ctx, ["GW_err", "GW_cb_raises"] if ctx.quick else ["GW_err", "GW_cb_raises", "GW_cb_recv", "GW_data_big", "GW_all_big"], mutants=["GW_cb_raises_unguarded"])
     progs = gwprograms.c07_programs(rng, 8 if ctx.quick else 60)
     opts = [{"post_yields": True}, {"post_yields": True, "chunking": "random"}, {"post_yields": False},
             {"post_yields": True, "line_level": LINE_FUNCS}]
